@@ -565,8 +565,10 @@ Proof.
   - (* innermost frame *)
     destruct Hfr as (lo & hi & bytes & Htx & Hr1 & Hr2 & Hl1 & Hl2).
     assert (Hep : epilog_at pe f u0 address =
-                  eparse_sequence (firstn (N.to_nat (rt_end f - address)) (skipn (N.to_nat (address - lo)) bytes)) (ui_fpreg u0)).
-    { unfold epilog_at. rewrite Htx.
+                  if local_jump (firstn (N.to_nat (rt_end f - address)) (skipn (N.to_nat (address - lo)) bytes)) address (rt_begin f) (rt_end f)
+                  then None
+                  else eparse_sequence (firstn (N.to_nat (rt_end f - address)) (skipn (N.to_nat (address - lo)) bytes)) (ui_fpreg u0)).
+    { unfold epilog_at. rewrite Htx. cbv zeta.
       destruct ((lo <=? address) && (address <? hi) && (address <=? rt_end f)) eqn:E; [reflexivity | lia]. }
     rewrite Htx. destruct (rt_end f <? address) eqn:E1; [lia|].
     destruct ((lo <=? address) && (address <? hi)) eqn:E2; [|lia].
